@@ -1037,7 +1037,7 @@ impl SourceTextModule {
         context: &mut Context,
     ) -> JsResult<JsPromise> {
         // 1. Assert: This call to Evaluate is not happening at the same time as another call to Evaluate within the surrounding agent.
-        let (module, promise) = {
+        let module = {
             match &*self.status.borrow() {
                 ModuleStatus::Unlinked { .. }
                 | ModuleStatus::Linking { .. }
@@ -1047,32 +1047,27 @@ impl SourceTextModule {
                         "2. Assert: module.[[Status]] is one of linked, evaluating-async, or evaluated."
                     )
                 }
-                ModuleStatus::Linked { .. } => (module_self.clone(), None),
+                ModuleStatus::Linked { .. } => module_self.clone(),
                 // 3. If module.[[Status]] is either evaluating-async or evaluated, set module to module.[[CycleRoot]].
-                ModuleStatus::EvaluatingAsync {
-                    cycle_root,
-                    top_level_capability,
-                    ..
-                }
-                | ModuleStatus::Evaluated {
-                    cycle_root,
-                    top_level_capability,
-                    ..
-                } => (
-                    cycle_root.clone(),
-                    top_level_capability
-                        .as_ref()
-                        .map(|cap| {
-                            JsPromise::from_object(cap.promise().clone()).js_expect(
-                                "promise created from the %Promise% intrinsic is always native",
-                            )
-                        })
-                        .transpose()?,
-                ),
+                ModuleStatus::EvaluatingAsync { cycle_root, .. }
+                | ModuleStatus::Evaluated { cycle_root, .. } => cycle_root.clone(),
             }
+        };
+        let ModuleKind::SourceText(module_src) = module.kind() else {
+            unreachable!("module must be a source text module");
         };
 
         // 4. If module.[[TopLevelCapability]] is not empty, then
+        //    (the capability of the *cycle root*, not the one of the module `Evaluate` was called on)
+        let promise = module_src
+            .status
+            .borrow()
+            .top_level_capability()
+            .map(|cap| {
+                JsPromise::from_object(cap.promise().clone())
+                    .js_expect("promise created from the %Promise% intrinsic is always native")
+            })
+            .transpose()?;
         if let Some(promise) = promise {
             // a. Return module.[[TopLevelCapability]].[[Promise]].
             return Ok(promise);
@@ -1091,10 +1086,22 @@ impl SourceTextModule {
             "capability creation must always succeed when using the `%Promise%` intrinsic",
         )?;
 
+        // A module that is already evaluating-async (or evaluated) is not visited again by
+        // `inner_evaluate`, so the capability has to be recorded here: `AsyncModuleExecutionFulfilled`
+        // / `AsyncModuleExecutionRejected` settle it when the pending evaluation finishes.
+        if let ModuleStatus::EvaluatingAsync {
+            top_level_capability,
+            ..
+        }
+        | ModuleStatus::Evaluated {
+            top_level_capability,
+            ..
+        } = &mut *module_src.status.borrow_mut()
+        {
+            *top_level_capability = Some(capability.clone());
+        }
+
         // 8. Let result be Completion(InnerModuleEvaluation(module, stack, 0)).
-        let ModuleKind::SourceText(module_src) = module.kind() else {
-            unreachable!("module must be a source text module");
-        };
         let result =
             module_src.inner_evaluate(&module, &mut stack, 0, Some(capability.clone()), context);
 
